@@ -414,3 +414,127 @@ Definition model_build_obs (bridge : list N) (bs : list build) : list build_obs 
                   [project (b_ps (fst br)) (b_rate (fst br)) (snd br);
                    project (b_ps (fst br)) (b_rate (fst br)) (build_one bridge (fst br))]))
       (combine bs (build_run bridge bs)).
+
+(* ---------------------------------------------------------------------------------------------- *)
+(* Round 5: duplicate and overlapping proposals - which proposals of a delivery are paid.
+
+   A delivery handed to Executor.Execute may list the same deposit more than once (a retried deposit
+   delivered together with the original), and deliveries may overlap.  The deposit a proposal pays is
+   identified by (source domain, deposit nonce) - the destination is this executor's own domain;
+   that is the key under which the Executor records the status of a proposal (store.PropStore).
+
+   proposalsForExecution (under propMutex), per proposal in delivery order:
+       isExecuted: the recorded status is anything but missing / failed  -> skip it
+       else record it pending and select it
+   so the second copy of a deposit inside ONE delivery already finds the first one pending.  [st] is
+   the list of deposits recorded so far (pending or executed; nothing fails in this part).
+
+   Execute then groups the selected proposals per resource (first-occurrence order here, the runner
+   sorts what it observes) and builds one transaction per group: rawTx of that group's proposals. *)
+Record dprop := mkD { d_src : N; d_nonce : N; d_rid : N; d_pay : prop }.
+Definition dkey : Type := (N * N)%type.
+Definition key_of (p : dprop) : dkey := (d_src p, d_nonce p).
+Definition key_eqb (a b : dkey) : bool := (fst a =? fst b)%N && (snd a =? snd b)%N.
+Definition has_key (k : dkey) (st : list dkey) : bool := existsb (key_eqb k) st.
+
+Section Dedup.
+  Context {A K : Type} (kf : A -> K) (keqb : K -> K -> bool).
+  (* keep the first element of every key that is not in [seen] *)
+  Fixpoint dedup_on (seen : list K) (l : list A) : list A :=
+    match l with
+    | [] => []
+    | x :: r => if existsb (keqb (kf x)) seen then dedup_on seen r
+                else x :: dedup_on (kf x :: seen) r
+    end.
+End Dedup.
+
+(* proposalsForExecution: the proposals selected from delivery [ps] when [st] is recorded *)
+Definition select_props (st : list dkey) (ps : list dprop) : list dprop := dedup_on key_of key_eqb st ps.
+
+(* resources of the selected proposals, and the group of one resource (delivery order) *)
+Definition rids_of (sel : list dprop) : list N := map d_rid (dedup_on d_rid N.eqb [] sel).
+Definition group_of (r : N) (sel : list dprop) : list dprop := filter (fun p => (d_rid p =? r)%N) sel.
+Definition dgroups (sel : list dprop) : list (N * list dprop) := map (fun r => (r, group_of r sel)) (rids_of sel).
+
+(* deliveries handled one after the other on one Executor: what each selects *)
+Fixpoint serial (st : list dkey) (dels : list (list dprop)) : list (list dprop) :=
+  match dels with
+  | [] => []
+  | d :: r => let sel := select_props st d in sel :: serial (map key_of sel ++ st) r
+  end.
+Definition serial_groups (st : list dkey) (dels : list (list dprop)) : list (N * list dprop) :=
+  flat_map dgroups (serial st dels).
+
+(* the bridge script of resource r (1-based) *)
+Definition bridge_of (keys : list (list N)) (r : N) : list N := script_of P2TR (nth (N.to_nat r - 1) keys []).
+
+(* What is observed of one transaction: the resource it is built for, the deposits its metadata
+   lists (source, nonce) and - where the runner lets the build complete - the transaction. *)
+Definition dtx : Type := (N * list dkey * option run_res)%type.
+
+Definition model_dtx (keys : list (list N)) (us : list utxo) (rate : Z) (cid : list N) (with_tx : bool)
+           (g : N * list dprop) : dtx :=
+  let ps := map d_pay (snd g) in
+  (fst g, map key_of (snd g),
+   if with_tx then Some (project ps rate (raw_tx ps us rate (bridge_of keys (fst g)) cid true)) else None).
+
+(* ---- the judge.  [ps] = all proposals delivered.  Every transaction: lists no deposit twice, lists
+   only deposits that were delivered, all of its own resource, and (if observed) obeys the
+   per-transaction specification [spec_one] for exactly the proposals it lists - one output per listed
+   proposal, the metadata output, at most one change output, conservation.  All transactions of ONE
+   delivery together ([strict]): no deposit twice.  And every delivered deposit is paid - unless
+   nothing at all was built (the statement is about transactions that are built). *)
+Definition all_metas (obs : list dtx) : list dkey := flat_map (fun o => snd (fst o)) obs.
+Definition lookup_key (ps : list dprop) (k : dkey) : option dprop := find (fun p => key_eqb (key_of p) k) ps.
+Fixpoint lookup_keys (ps : list dprop) (ks : list dkey) : option (list dprop) :=
+  match ks with
+  | [] => Some []
+  | k :: r => match lookup_key ps k, lookup_keys ps r with
+              | Some p, Some l => Some (p :: l)
+              | _, _ => None
+              end
+  end.
+
+Definition dtx_ok (ps : list dprop) (keys : list (list N)) (us : list utxo) (o : dtx) : bool :=
+  nodupb key_eqb (snd (fst o))
+  && match lookup_keys ps (snd (fst o)) with
+     | None => false
+     | Some gps =>
+         forallb (fun p => (d_rid p =? fst (fst o))%N) gps
+         && match snd o with
+            | None => true
+            | Some t => spec_one (map d_pay gps) us (bridge_of keys (fst (fst o))) t
+            end
+     end.
+
+Definition dup_body (strict : bool) (ps : list dprop) (keys : list (list N)) (us : list utxo) (obs : list dtx) : bool :=
+  (if strict then nodupb key_eqb (all_metas obs) else true)
+  && forallb (fun p => has_key (key_of p) (all_metas obs)) ps
+  && forallb (dtx_ok ps keys us) obs.
+
+Definition dup_ok (strict : bool) (ps : list dprop) (keys : list (list N)) (us : list utxo) (obs : list dtx) : bool :=
+  match obs with [] => true | _ => dup_body strict ps keys us obs end.
+
+(* the deliveries the generator produces: copies of one deposit agree in everything (so "the proposal
+   of a deposit" is well defined whatever copy is taken) *)
+Definition rkind_eqb (a b : rkind) : bool :=
+  match a, b with
+  | P2PKH, P2PKH | P2SH, P2SH | P2WPKH, P2WPKH | P2WSH, P2WSH | P2TR, P2TR | P2PK, P2PK => true
+  | _, _ => false
+  end.
+Definition rcpt_eqb (a b : recipient) : bool :=
+  match a, b with
+  | Invalid, Invalid => true
+  | Valid k h, Valid k' h' => rkind_eqb k k' && str_eqb h h'
+  | _, _ => false
+  end.
+Definition dprop_eqb (p q : dprop) : bool :=
+  key_eqb (key_of p) (key_of q) && (d_rid p =? d_rid q)%N
+  && (p_amount (d_pay p) =? p_amount (d_pay q)) && rcpt_eqb (p_rcpt (d_pay p)) (p_rcpt (d_pay q)).
+Definition consistent (ps : list dprop) : bool :=
+  forallb (fun p => forallb (fun q => negb (key_eqb (key_of p) (key_of q)) || dprop_eqb p q) ps) ps.
+
+(* hypothesis of the judge theorem where transactions are observed: every group is a well-formed
+   input of the builder *)
+Definition groups_wf (gs : list (N * list dprop)) (us : list utxo) (rate : Z) : bool :=
+  forallb (fun g => wf (map d_pay (snd g)) us rate) gs.
